@@ -416,7 +416,8 @@ def r5_shared_objects_not_passed_to_mutators(ctx: Ctx) -> None:
                     r = root_of(k.value)  # type: ignore[operator]
                     if r and k.arg in muts.get(t.fq, set()):
                         ctx.fail(f"{caller.where}:{unparse(sct.node)[:50]}", f"passes the process-lifetime object {r} as `{k.arg}` to {t.qualname}, which mutates it")
-                if offset and isinstance(sct.node.func, ast.Attribute) and "self" in muts.get(t.fq, set()) and t.name not in ("map", "unmap", "__init__"):
+                if offset and isinstance(sct.node.func, ast.Attribute) and "self" in muts.get(t.fq, set()) and t.name not in ("map", "unmap", "__init__") \
+                        and sct.how in ("typed", "name", "super", "class-attr", "module-attr"):
                     r = root_of(sct.node.func.value)  # type: ignore[operator]
                     if r:
                         ctx.fail(f"{caller.where}:{unparse(sct.node)[:50]}", f"calls {t.qualname}, which mutates its receiver, on the process-lifetime object {r}")
